@@ -301,6 +301,10 @@ class SequentialIGL(Evaluator):
                 if not interactions:
                     return
 
+                missing_keys = {'rewards','feedbacks','userid'} - first.keys()
+                if missing_keys:
+                    raise CobaException(f"SequentialIGL requires {missing_keys}.")
+
                 is_missing = 'context' not in first
                 is_sparse  = not is_missing and isinstance(first['context'],Sparse)
                 is_dense   = not is_missing and isinstance(first['context'],Dense)
@@ -326,17 +330,34 @@ class SequentialIGL(Evaluator):
                     yield new
 
         envIGL = IglEnvironment(environment)
-        record = self._record+['action']
         seed   = self._seed
 
-        out_action   = 'action'   in self._record
-        out_feedback = 'feedback' in self._record
-        out_reward   = 'reward'   in self._record
+        out_action    = 'action'    in self._record
+        out_actions   = 'actions'   in self._record
+        out_feedback  = 'feedback'  in self._record
+        out_reward    = 'reward'    in self._record
+        out_feedbacks = 'feedbacks' in self._record
+        out_rewards   = 'rewards'   in self._record
+
+        #The learner is shown the feedbacks in place of the rewards (see IglEnvironment). This means
+        #what SequentialCB records as reward/rewards is our feedback/feedbacks and the interaction's
+        #'feedbacks' item, which SequentialCB copies to its output, is the true reward function.
+        record  = ['probability' if r == 'prob' else r for r in self._record if r not in ['reward','feedback','rewards','feedbacks']]
+        record += ['action','reward']
+        if out_rewards  : record += ['actions']
+        if out_feedbacks: record += ['rewards']
 
         for out in SequentialCB(record,seed=seed).evaluate(envIGL,learner):
-            if out_feedback  : out['feedback'] = out['reward']
-            if out_reward    : out['reward']   = out.pop('feedbacks')(out['action'])
-            if not out_action: del out['action']
+            feedback  = out.pop('reward')
+            feedbacks = out.pop('rewards',None)
+            rewards   = out.pop('feedbacks')
+
+            if out_feedback   : out['feedback']  = feedback
+            if out_feedbacks  : out['feedbacks'] = feedbacks
+            if out_reward     : out['reward']    = rewards(out['action'])
+            if out_rewards    : out['rewards']   = [rewards(a) for a in out['actions']]
+            if not out_actions: out.pop('actions',None)
+            if not out_action : del out['action']
 
             yield out
 
